@@ -26,8 +26,8 @@ pub proof fn lemma_first_bucket_char(w: World, t: Address, n: int)
     requires n >= 0,
     ensures
         -1 <= first_bucket(w, t, n) < n,
-        first_bucket(w, t, n) >= 0 ==> bucket(w, first_bucket(w, t, n) as u32).contains(t),
-        first_bucket(w, t, n) < 0 ==> forall|b: int| 0 <= b < n ==> !(#[trigger] bucket(w, b as u32)).contains(t),
+        first_bucket(w, t, n) >= 0 ==> bkt(w, first_bucket(w, t, n) as u32).contains(t),
+        first_bucket(w, t, n) < 0 ==> forall|b: int| 0 <= b < n ==> !(#[trigger] bkt(w, b as u32)).contains(t),
     decreases n
 {
     if n > 0 { lemma_first_bucket_char(w, t, n - 1); }
@@ -38,12 +38,12 @@ pub proof fn lemma_inv_lens(w: World, i: int)
     requires inv_tb(w), 0 <= i < bcount(w),
     ensures
         0 <= i / 100 < nbuckets(w), i / 100 <= u32::MAX,
-        i % 100 < bucket(w, (i / 100) as u32).len(),
-        bucket(w, (i / 100) as u32).contains(tok_at(w, i)),
+        i % 100 < bkt(w, (i / 100) as u32).len(),
+        bkt(w, (i / 100) as u32).contains(tok_at(w, i)),
 {
     let b = (i / 100) as u32;
-    assert(bucket(w, b).len() == want_len(bcount(w) as int, b as int));
-    assert(bucket(w, b)[i % 100] == tok_at(w, i));
+    assert(bkt(w, b).len() == want_len(bcount(w) as int, b as int));
+    assert(bkt(w, b)[i % 100] == tok_at(w, i));
 }
 /// under the invariant the bucket scan of is_token_bound / get_token_index decides membership of the set view
 pub proof fn lemma_scan_is_set(w: World, t: Address)
@@ -57,7 +57,7 @@ pub proof fn lemma_scan_is_set(w: World, t: Address)
     lemma_first_bucket_char(w, t, n);
     if scan_bound(w, t) {
         let b = first_bucket(w, t, n);
-        let s = bucket(w, b as u32);
+        let s = bkt(w, b as u32);
         lemma_seq_index_of(s, t);
         let k = seq_index_of(s, t);
         assert(s.len() == want_len(bcount(w) as int, b as int));
@@ -69,7 +69,7 @@ pub proof fn lemma_scan_is_set(w: World, t: Address)
     if is_bound(w, t) {
         let i = choose|i: int| 0 <= i < bcount(w) && tok_at(w, i) == t;
         lemma_inv_lens(w, i);
-        if first_bucket(w, t, n) < 0 { assert(!bucket(w, (i / 100) as u32).contains(t)); }
+        if first_bucket(w, t, n) < 0 { assert(!bkt(w, (i / 100) as u32).contains(t)); }
     }
 }
 
@@ -78,7 +78,7 @@ pub proof fn lemma_bind_pw(w: World, t: Address)
     ensures
         bcount(bind_core(w, t)) == bcount(w) + 1,
         forall|b: u32| #[trigger] bucket_opt(bind_core(w, t), b) ==
-            (if b == bcount(w) / 100 { Some(bucket(w, b).push(t)) } else { bucket_opt(w, b) }),
+            (if b == bcount(w) / 100 { Some(bkt(w, b).push(t)) } else { bucket_opt(w, b) }),
 {
     broadcast use sdk_store;
 }
@@ -96,16 +96,16 @@ pub proof fn lemma_bind_core(w: World, t: Address)
     let c = bcount(w) as int;
     lemma_bind_pw(w, t);
     lemma_scan_is_set(w, t);
-    assert forall|b: u32| #[trigger] bucket(w2, b) == (if b == c / 100 { bucket(w, b).push(t) } else { bucket(w, b) }) by {
-        assert(bucket_opt(w2, b) == (if b == bcount(w) / 100 { Some(bucket(w, b).push(t)) } else { bucket_opt(w, b) }));
+    assert forall|b: u32| #[trigger] bkt(w2, b) == (if b == c / 100 { bkt(w, b).push(t) } else { bkt(w, b) }) by {
+        assert(bucket_opt(w2, b) == (if b == bcount(w) / 100 { Some(bkt(w, b).push(t)) } else { bucket_opt(w, b) }));
     }
-    assert forall|b: u32| (#[trigger] bucket(w2, b)).len() == want_len(c + 1, b as int) by {
-        assert(bucket(w, b).len() == want_len(c, b as int));
+    assert forall|b: u32| (#[trigger] bkt(w2, b)).len() == want_len(c + 1, b as int) by {
+        assert(bkt(w, b).len() == want_len(c, b as int));
     }
     assert forall|i: int| 0 <= i <= c implies #[trigger] tok_at(w2, i) == (if i == c { t } else { tok_at(w, i) }) by {
         let b = (i / 100) as u32;
-        assert(bucket(w2, b) == (if b == c / 100 { bucket(w, b).push(t) } else { bucket(w, b) }));
-        assert(bucket(w, b).len() == want_len(c, b as int));
+        assert(bkt(w2, b) == (if b == c / 100 { bkt(w, b).push(t) } else { bkt(w, b) }));
+        assert(bkt(w, b).len() == want_len(c, b as int));
     }
     assert forall|i: int, j: int| 0 <= i < j < bcount(w2) implies #[trigger] tok_at(w2, i) != #[trigger] tok_at(w2, j) by {
         if j == c { assert(tok_at(w, i) != t); }
@@ -122,7 +122,7 @@ pub proof fn lemma_bind_core(w: World, t: Address)
 pub proof fn lemma_tb_event(w: World, ev: SV)
     ensures
         bcount(w_event(w, ev)) == bcount(w),
-        forall|b: u32| #[trigger] bucket(w_event(w, ev), b) == bucket(w, b),
+        forall|b: u32| #[trigger] bkt(w_event(w, ev), b) == bkt(w, b),
         forall|i: int| #[trigger] tok_at(w_event(w, ev), i) == tok_at(w, i),
         inv_tb(w_event(w, ev)) == inv_tb(w),
         forall|x: Address| #[trigger] is_bound(w_event(w, ev), x) == is_bound(w, x),
@@ -130,8 +130,8 @@ pub proof fn lemma_tb_event(w: World, ev: SV)
 {
     let w2 = w_event(w, ev);
     assert(pget(w2, k_cnt()) == pget(w, k_cnt()));
-    assert forall|b: u32| #[trigger] bucket(w2, b) == bucket(w, b) by { assert(pget(w2, k_bkt(b)) == pget(w, k_bkt(b))); }
-    assert forall|i: int| #[trigger] tok_at(w2, i) == tok_at(w, i) by { assert(bucket(w2, (i / 100) as u32) == bucket(w, (i / 100) as u32)); }
+    assert forall|b: u32| #[trigger] bkt(w2, b) == bkt(w, b) by { assert(pget(w2, k_bkt(b)) == pget(w, k_bkt(b))); }
+    assert forall|i: int| #[trigger] tok_at(w2, i) == tok_at(w, i) by { assert(bkt(w2, (i / 100) as u32) == bkt(w, (i / 100) as u32)); }
     assert forall|x: Address| #[trigger] is_bound(w2, x) == is_bound(w, x) by {
         if is_bound(w, x) { let i = choose|i: int| 0 <= i < bcount(w) && tok_at(w, i) == x; assert(tok_at(w2, i) == x); }
         if is_bound(w2, x) { let i = choose|i: int| 0 <= i < bcount(w2) && tok_at(w2, i) == x; assert(tok_at(w, i) == x); }
@@ -145,7 +145,7 @@ pub proof fn lemma_tb_event(w: World, ev: SV)
         assert forall|i: int, j: int| 0 <= i < j < bcount(w) implies #[trigger] tok_at(w, i) != #[trigger] tok_at(w, j) by {
             assert(tok_at(w2, i) != tok_at(w2, j));
         }
-        assert forall|b: u32| (#[trigger] bucket(w, b)).len() == want_len(bcount(w) as int, b as int) by { assert(bucket(w2, b) == bucket(w, b)); }
+        assert forall|b: u32| (#[trigger] bkt(w, b)).len() == want_len(bcount(w) as int, b as int) by { assert(bkt(w2, b) == bkt(w, b)); }
     }
 }
 pub proof fn lemma_bind(w: World, t: Address)
@@ -170,9 +170,9 @@ pub proof fn lemma_unbind_pw(w: World, t: Address)
             let ti = scan_index(w, t); let last = bcount(w) - 1; let w1 = unbind_w1(w, t); let w3 = unbind_core(w, t);
             &&& bcount(w3) == last
             &&& forall|b: u32| #[trigger] bucket_opt(w1, b) ==
-                    (if ti != last && b == (ti / 100) as u32 { Some(bucket(w, b).update(ti % 100, tok_at(w, last))) } else { bucket_opt(w, b) })
+                    (if ti != last && b == (ti / 100) as u32 { Some(bkt(w, b).update(ti % 100, tok_at(w, last))) } else { bucket_opt(w, b) })
             &&& forall|b: u32| #[trigger] bucket_opt(w3, b) ==
-                    (if b == (last / 100) as u32 { Some(drop_last_or_same(bucket(w1, b))) } else { bucket_opt(w1, b) })
+                    (if b == (last / 100) as u32 { Some(drop_last_or_same(bkt(w1, b))) } else { bucket_opt(w1, b) })
         }),
 {
     broadcast use sdk_store;
@@ -193,23 +193,23 @@ pub proof fn lemma_unbind_core(w: World, t: Address)
     lemma_unbind_pw(w, t);
     lemma_scan_is_set(w, t);
     let lbk = (last / 100) as u32; let tbk = (ti / 100) as u32;
-    assert forall|b: u32| #[trigger] bucket(w1, b) ==
-        (if ti != last && b == tbk { bucket(w, b).update(ti % 100, tok_at(w, last)) } else { bucket(w, b) }) by {
-        assert(bucket_opt(w1, b) == (if ti != last && b == (ti / 100) as u32 { Some(bucket(w, b).update(ti % 100, tok_at(w, last))) } else { bucket_opt(w, b) }));
+    assert forall|b: u32| #[trigger] bkt(w1, b) ==
+        (if ti != last && b == tbk { bkt(w, b).update(ti % 100, tok_at(w, last)) } else { bkt(w, b) }) by {
+        assert(bucket_opt(w1, b) == (if ti != last && b == (ti / 100) as u32 { Some(bkt(w, b).update(ti % 100, tok_at(w, last))) } else { bucket_opt(w, b) }));
     }
-    assert forall|b: u32| #[trigger] bucket(w3, b) == (if b == lbk { drop_last_or_same(bucket(w1, b)) } else { bucket(w1, b) }) by {
-        assert(bucket_opt(w3, b) == (if b == (last / 100) as u32 { Some(drop_last_or_same(bucket(w1, b))) } else { bucket_opt(w1, b) }));
+    assert forall|b: u32| #[trigger] bkt(w3, b) == (if b == lbk { drop_last_or_same(bkt(w1, b)) } else { bkt(w1, b) }) by {
+        assert(bucket_opt(w3, b) == (if b == (last / 100) as u32 { Some(drop_last_or_same(bkt(w1, b))) } else { bucket_opt(w1, b) }));
     }
-    assert forall|b: u32| (#[trigger] bucket(w3, b)).len() == want_len(last, b as int) by {
-        assert(bucket(w, b).len() == want_len(c, b as int));
-        assert(bucket(w3, b) == (if b == lbk { drop_last_or_same(bucket(w1, b)) } else { bucket(w1, b) }));
-        assert(bucket(w1, b) == (if ti != last && b == tbk { bucket(w, b).update(ti % 100, tok_at(w, last)) } else { bucket(w, b) }));
+    assert forall|b: u32| (#[trigger] bkt(w3, b)).len() == want_len(last, b as int) by {
+        assert(bkt(w, b).len() == want_len(c, b as int));
+        assert(bkt(w3, b) == (if b == lbk { drop_last_or_same(bkt(w1, b)) } else { bkt(w1, b) }));
+        assert(bkt(w1, b) == (if ti != last && b == tbk { bkt(w, b).update(ti % 100, tok_at(w, last)) } else { bkt(w, b) }));
     }
     assert forall|i: int| 0 <= i < last implies #[trigger] tok_at(w3, i) == (if i == ti { tok_at(w, last) } else { tok_at(w, i) }) by {
         let b = (i / 100) as u32;
-        assert(bucket(w, b).len() == want_len(c, b as int));
-        assert(bucket(w3, b) == (if b == lbk { drop_last_or_same(bucket(w1, b)) } else { bucket(w1, b) }));
-        assert(bucket(w1, b) == (if ti != last && b == tbk { bucket(w, b).update(ti % 100, tok_at(w, last)) } else { bucket(w, b) }));
+        assert(bkt(w, b).len() == want_len(c, b as int));
+        assert(bkt(w3, b) == (if b == lbk { drop_last_or_same(bkt(w1, b)) } else { bkt(w1, b) }));
+        assert(bkt(w1, b) == (if ti != last && b == tbk { bkt(w, b).update(ti % 100, tok_at(w, last)) } else { bkt(w, b) }));
         if b == tbk && i % 100 == ti % 100 { assert(i == ti); }
     }
     assert forall|i: int, j: int| 0 <= i < j < bcount(w3) implies #[trigger] tok_at(w3, i) != #[trigger] tok_at(w3, j) by {
@@ -257,12 +257,12 @@ pub proof fn lemma_concat_prefix(w: World, n: int)
     if n > 0 {
         lemma_concat_prefix(w, n - 1);
         let b = (n - 1) as u32;
-        assert(bucket(w, b).len() == want_len(bcount(w) as int, b as int));
+        assert(bkt(w, b).len() == want_len(bcount(w) as int, b as int));
         let p = concat_buckets(w, n - 1);
         assert(p.len() == (n - 1) * 100);
         assert forall|i: int| 0 <= i < concat_buckets(w, n).len() implies #[trigger] concat_buckets(w, n)[i] == tok_at(w, i) by {
             if i >= p.len() {
-                assert(concat_buckets(w, n)[i] == bucket(w, b)[i - p.len()]);
+                assert(concat_buckets(w, n)[i] == bkt(w, b)[i - p.len()]);
                 assert(i / 100 == n - 1 && i % 100 == i - p.len());
             }
         }
